@@ -262,6 +262,9 @@ func init() {
 			}
 			pl := v1x.MakePlan(c.Rng, p)
 			v1x.LazyPrefix(pl, c.Index)
+			if v1x.EmptyKeyVariant(pl, c.Index) {
+				c.Obs("histories_with_the_empty_key", 1)
+			}
 			if c.Index%10 == 7 {
 				labelCoincidence(c.Rng, pl)
 			}
